@@ -51,6 +51,8 @@ def run_quadlet(unit_dirs, out_dir, dry_run=False, user=False, extra_env=None, a
         args += extra_args
     args.append(out_dir)
     try:
+        if vlib.PRLIMIT:
+            args = [vlib.PRLIMIT, "--as=%d" % (6 << 30)] + args          # a runaway generator must not take the machine down
         p = subprocess.run(args, env=env, stdout=subprocess.PIPE, stderr=subprocess.PIPE, timeout=timeout)
         return p.returncode, p.stdout, p.stderr
     except subprocess.TimeoutExpired as e:
